@@ -268,6 +268,9 @@ func Op(t *rapid.T, tr Tree, names []string, maxDepth int, rootMut bool) ops.Op 
 	case "chtimes":
 		op.P = Path(t, tr, names, maxDepth, true, "p")
 		op.Sec = int64(rapid.IntRange(1_000_000_000, 2_000_000_000).Draw(t, "sec"))
+		if rapid.IntRange(0, 7).Draw(t, "zerotime") == 0 {
+			op.Sec = 0 // the zero time.Time: os.Chtimes leaves the times unchanged
+		}
 	case "stat", "lstatorstat", "readdir", "readfile":
 		op.P = Path(t, tr, names, maxDepth, true, "p")
 	}
